@@ -245,6 +245,31 @@ def _dup_location(f, err, note, span_param):
             if "Span::location(" in l_ and "Span::location(" in r_:
                 this_left = l_.startswith("Span::location(%s)" % span_param)
                 cmpb = (t["target"], t["dest"]["l"], (m_.group(1) == "lt") == this_left)
+    # `a.location().zip(b.location()).map_or(false, |(x, y)| x.0 < y.0)`: the comparison sits in a closure over the zipped pair
+    if cmpb is None:
+        from mir import closure_of_origin
+        for bi, t in f.calls():
+            if not re.search(r"Option::<T>::(map_or|is_some_and|map_or_else)$", t.get("callee") or "") or t.get("target") is None:
+                continue
+            a0 = deep(f, t["args"][0], 8)
+            m_ = re.search(r"Option::zip\(Span::location\((.*?)\), Span::location\(", a0)
+            if not m_:
+                continue
+            zip_this_first = m_.group(1) == span_param
+            g = f.prog.fn(closure_of_origin(f.origin_op(t["args"][-1])) or "")
+            if g is None:
+                continue
+            for b2, s2, st2 in g.stmts():
+                if st2["k"] == "assign" and st2["rv"]["k"] == "binop" and st2["rv"]["op"] in ("Lt", "Gt"):
+                    l_, r_ = deep(g, st2["rv"]["l"], 6), deep(g, st2["rv"]["r"], 6)
+                    if re.search(r"\.0\.0$", l_) and re.search(r"\.1\.0$", r_):
+                        left_is_first = True
+                    elif re.search(r"\.1\.0$", l_) and re.search(r"\.0\.0$", r_):
+                        left_is_first = False
+                    else:
+                        continue
+                    first_when_true = (st2["rv"]["op"] == "Lt") == left_is_first      # `the first of the pair comes first` when true
+                    cmpb = (bi, t["dest"]["l"], first_when_true == zip_this_first)
     if cmpb is None:
         return False, "the two positions are not compared"
     guard = False
@@ -885,6 +910,12 @@ def parse_rules(run):
             if ok:
                 ib = incs[0][1]
                 dots = [(bi, t) for bi, t in _calls(f, "Walker::maybe_expect") if any("Dot" in str(a.get("const", "")) for a in t["args"]) or any("Dot" in deep(f, a) for a in t["args"])]
+                # ... or through a helper of the parser that wraps maybe_expect (e.g. one that first asks for a line break)
+                for bi, t in f.calls():
+                    h_ = prog.fn(t.get("resolved") or "")
+                    if h_ is not None and h_.id != f.id and re.search(r"::maybe_expect_\w+$", h_.id) and _calls(h_, "Walker::maybe_expect") \
+                            and (any("Dot" in str(a.get("const", "")) for a in t["args"]) or any("Dot" in deep(f, a) for a in t["args"])):
+                        dots.append((bi, t))
                 okd = False
                 for bi, t in dots:
                     sw = _switch_on_call_result(f, bi, t)
